@@ -1,5 +1,5 @@
 from itertools import product
-from numpy import cos, pi, log, exp, mean, sqrt, tanh
+from numpy import cos, pi, log, exp, mean, sqrt, tanh, inf
 from numpy import array, ndarray, linspace, zeros, atleast_1d
 from scipy.integrate import simpson, quad
 from scipy.optimize import minimize
@@ -129,15 +129,20 @@ class UnimodalPdf(DensityEstimator):
         inverse_sort = sorter.argsort()
         v = x[sorter]
         intervals = zeros(x.size)
-        # probability below 'lwr_limit' - small, but not zero for heavy-tailed estimates
-        lwr_tail = self.lwr_limit - 100 * (self.upr_limit - self.lwr_limit)
+        # probability below 'lwr_limit' - small, but not zero for heavy-tailed
+        # or strongly skewed estimates
+        # (integrated in units of the width of the estimate, so the result
+        # does not depend on the scale of the data)
+        s0 = self.MAP[1]
         if v[0] > self.lwr_limit:
+            tail = lambda u: self.__call__(self.lwr_limit + u * s0) * s0
             intervals[0] = (
-                quad(self.__call__, lwr_tail, self.lwr_limit)[0]
+                quad(tail, -inf, 0.0)[0]
                 + quad(self.__call__, self.lwr_limit, v[0])[0]
             )
         else:
-            intervals[0] = quad(self.__call__, min(lwr_tail, v[0]), v[0])[0]
+            tail = lambda u: self.__call__(v[0] + u * s0) * s0
+            intervals[0] = quad(tail, -inf, 0.0)[0]
         for i in range(1, x.size):
             intervals[i] = quad(self.__call__, v[i - 1], v[i])[0]
         integral = intervals.cumsum()[inverse_sort]
